@@ -189,8 +189,17 @@ class Concrete:
         return View(self.st.store[self.acell]).to_dict(None)
 
 
+def reg_args(c):
+    if c[0] in MUT1: return [c[1]]
+    if c[0] in MUT2: return [c[1], c[2]]
+    if c[0] == 'append_value': return [c[1]]
+    if c[0] in ('iter', 'pulls'): return [c[2]]
+    return []
+
+
 def valid_call(conc, c):
     """the crate documents detach/remove/remove_subtree on a removed node and iterators from removed nodes as invalid"""
+    if any(r not in conc.regs for r in reg_args(c)): return False      # register never assigned (its allocation panicked)
     if c[0] in MUT1 or c[0] in ('iter', 'pulls'):
         r = c[1] if c[0] in MUT1 else c[2]
         return conc.is_live_reg(r)
@@ -207,7 +216,7 @@ def run_one(prog, script, profile='dev'):
         if not valid_call(conc, c): continue
         # ids of recycled slots (stale ids) are outside the claim: skip commands that mention a stale register
         stale = False
-        for r in [a for a in c[1:] if isinstance(a, str) and a in conc.regs]:
+        for r in reg_args(c):
             nid = conc.regs[r]
             sl = conc.state()['slots'][nid.f[0].f[0].v - 1]
             if sl['stamp'] >= 0 and sl['stamp'] != nid.f[1].f[0].v: stale = True
